@@ -69,10 +69,18 @@ void ops_advance(int64_t t) {
 std::string hex64(uint64_t v) { char b[20]; snprintf(b, sizeof b, "%016llx", (unsigned long long)v); return b; }
 
 [[noreturn]] void finish_and_exit(Run &run, int code) {
+  if (run.cfg.profile == "C14B") {
+    // one failing allocation with the event thread running: everything that goes wrong in such a run is C14's business
+    for (auto &v : run.viol) if (v.prop != "C14") { v.oracle = "threaded_" + v.prop + "_" + v.oracle; v.prop = "C14"; }
+    if (g_alloc.failed) run.note("allocation_failure_delivered");
+    if (!g_alloc.fail_site.empty()) for (auto &v : run.viol) v.detail += " [the failed allocation was in " + g_alloc.fail_site + "]";
+  }
   // RUN line (same shape as Mode A) plus the scheduling decisions, then leave without unwinding other threads
   bool nt = profile_nontrivial(run);
   JW j; j.obj();
-  j.kv("seed", run.cfg.seed).kv("trace", hex64(W.trace_hash ^ sched_decision_hash())).kv("shape", hex64(W.shape_hash ^ (sched_decision_hash() * 31))).kv("nt", nt);
+  j.kv("seed", run.cfg.seed);
+  if (run.cfg.knob("fail_at", -1) > 0) j.kv("sub", run.cfg.knob("fail_at"));
+  j.kv("trace", hex64(W.trace_hash ^ sched_decision_hash())).kv("shape", hex64(W.shape_hash ^ (sched_decision_hash() * 31))).kv("nt", nt);
   j.kv("steps", (int64_t)sched_steps()).kv("reqs", (int64_t)run.reqs.size()).kv("txs", (int64_t)W.txs.size()).kv("vt_us", W.now_us - run.cfg.t0_us);
   j.kv("switches", (int64_t)sched_switches()).kv("threads", (int64_t)sched_nthreads());
   j.key("viol").arr();
@@ -249,6 +257,7 @@ int run_mode_b(const RunCfg &cfg, const std::vector<Step> &plan, const std::vect
   run.on_done = [prev_done](Run &r, Req &q) { if (prev_done) prev_done(r, q); if (r.outstanding() == 0) g_mb->zero_transitions++; };
   alloc_install();
   g_alloc.reset(); g_alloc.active = true;
+  g_alloc.fail_at = (long)cfg.knob("fail_at", -1);
 
   int nthreads = cfg.nthreads > 0 ? cfg.nthreads : 2;
   mb.prog.assign((size_t)nthreads + 1, {});
@@ -285,6 +294,35 @@ int run_mode_b(const RunCfg &cfg, const std::vector<Step> &plan, const std::vect
     } else run.note("drained");
     run.drained = ok != 0;
   }
+  if (cfg.profile == "C14B" && g_alloc.failed > 0 && run.chans[0].alive) {
+    // the channel must still work after the failure: a fresh query on it completes (event thread alone drives it)
+    int sel = -1;
+    for (size_t i = 0; i < run.cfg.names.size() && sel < 0; i++) {
+      const std::string &b = run.cfg.names[i];
+      if (b.empty() || b[0] == '!' || b.find('.') == std::string::npos) continue;
+      if (W.zone_outcome(dnsref::name_from_text("t9999." + b), 1) == Z_DATA) sel = (int)i;
+    }
+    if (sel >= 0) {
+      // (the failure may have hit the configuration calls of the scenario itself: give the channel its servers again first)
+      std::vector<int> all; for (size_t i = 0; i < run.cfg.servers.size(); i++) all.push_back((int)i);
+      W.api_seq++;
+      int rcs = ares_set_servers_ports_csv(run.chans[0].ch, servers_csv(run.cfg.servers, all).c_str());
+      if (rcs != ARES_SUCCESS) run.violate("C14", "channel_unusable_after_failure", std::string("with the event thread: ares_set_servers_ports_csv returned ") + ares_status_name(rcs) + " after the failed allocation (no further failure injected)");
+      run.active = all;
+      int saved_qt = run.cfg.qtypes.empty() ? 1 : run.cfg.qtypes[0];
+      if (run.cfg.qtypes.empty()) run.cfg.qtypes.push_back(1); else run.cfg.qtypes[0] = 1;
+      int tok = run.submit(K_QUERY_DNSREC, sel, 0, R_NONE, 0, false, 0, 0);
+      run.cfg.qtypes[0] = saved_qt;
+      run.note("usability_checked");
+      if (tok >= 0) {
+        int ok2 = sched_wait(pred_all_done, &run, W.now_us + 120000000LL, WHY_APPWAIT);
+        const Req &q = run.reqs[(size_t)tok];
+        if (!ok2 || q.cb_count == 0 || (q.status != ARES_SUCCESS && q.status != ARES_ENODATA && q.status != ARES_ENOTFOUND))
+          run.violate("C14", "channel_unusable_after_failure", "with the event thread: a fresh query (" + q.name + ") after allocation #" + std::to_string(cfg.knob("fail_at")) + " had failed ended with " + (q.cb_count ? ares_status_name(q.status) : "no callback") + " although the network is healthy (" + thread_table() + ")");
+        else run.note("usability_ok");
+      }
+    }
+  }
   run.destroy_all();
   run.note("destroyed");
   int unjoined = sched_unjoined_lib_threads();
@@ -293,6 +331,15 @@ int run_mode_b(const RunCfg &cfg, const std::vector<Step> &plan, const std::vect
   if (run.at_end) run.at_end(run);
   ares_library_cleanup();
   g_alloc.active = false;
-  if (!g_alloc.live.empty()) run.note("leaked_allocations", (int64_t)g_alloc.live.size());
+  run.note("alloc_calls", g_alloc.calls);
+  if (!g_alloc.live.empty()) {
+    run.note("leaked_allocations", (int64_t)g_alloc.live.size());
+    if (cfg.profile == "C14B") {
+      size_t bytes = 0; long first = -1; size_t fsz = 0;
+      for (auto &p : g_alloc.live) { bytes += p.second.size; if (first < 0 || p.second.index < first) { first = p.second.index; fsz = p.second.size; } }
+      run.violate("C14", "leak", "with the event thread: " + std::to_string(g_alloc.live.size()) + " allocation(s), " + std::to_string(bytes) + " bytes, still live after ares_destroy and ares_library_cleanup" + (cfg.knob("fail_at", -1) > 0 ? " (allocation #" + std::to_string(cfg.knob("fail_at")) + " was failed)" : " (no failure injected)") + "; earliest is allocation #" + std::to_string(first) + " of " + std::to_string(fsz) + " bytes");
+    }
+  }
+  if (g_alloc.bad_free && cfg.profile == "C14B") run.violate("C14", "bad_free", std::to_string(g_alloc.bad_free) + " free/realloc call(s) on a pointer the allocator never handed out or already released");
   finish_and_exit(run, 0);
 }
